@@ -203,7 +203,18 @@ func fieldClass(f wc.Field, v any) string {
 	switch f.Kind {
 	case wc.Mpint:
 		if n, ok := v.(*big.Int); ok && n != nil {
-			return "mpint:" + mpintClass(n)
+			c := mpintClass(n)
+			switch {
+			case strings.HasPrefix(c, "neg:bl%8=0"), strings.HasPrefix(c, "neg:bl%8=7"):
+				return "mpint:neg:pad-boundary"
+			case strings.HasPrefix(c, "neg"):
+				return "mpint:neg"
+			case strings.HasPrefix(c, "pos:bl%8=0"):
+				return "mpint:pos:top-bit-set"
+			case strings.HasPrefix(c, "pos"):
+				return "mpint:pos"
+			}
+			return "mpint:zero"
 		}
 		return "mpint"
 	case wc.NameList:
@@ -320,4 +331,50 @@ func joinClasses(c []string) string {
 		c = c[:3]
 	}
 	return strings.Join(c, ",")
+}
+
+// nonCanonical re-encodes vals with one boolean written as a byte >1 or one
+// mpint carrying 1..3 unnecessary leading 0x00/0xff bytes (same value by
+// RFC 4251, but not what a conforming sender produces). nil if the struct
+// has no such field.
+func nonCanonical(r *rand.Rand, d wc.Desc, vals []any) ([]byte, string) {
+	var idx []int
+	for i, f := range d.Fields {
+		if f.Kind == wc.Mpint || (f.Kind == wc.Bool && vals[i].(bool)) {
+			idx = append(idx, i)
+		}
+	}
+	if len(idx) == 0 {
+		return nil, ""
+	}
+	k := idx[r.IntN(len(idx))]
+	var out []byte
+	if len(d.Types) > 0 {
+		out = append(out, d.Types[0])
+	}
+	name := ""
+	for i, f := range d.Fields {
+		if i != k {
+			out = append(out, wc.EncodeField(f, vals[i])...)
+			continue
+		}
+		if f.Kind == wc.Bool {
+			out = append(out, byte(2+r.IntN(254)))
+			name = "noncanon-bool"
+			continue
+		}
+		n := vals[i].(*big.Int)
+		pad := byte(0x00)
+		name = "noncanon-mpint-pos"
+		if n.Sign() < 0 {
+			pad, name = 0xff, "noncanon-mpint-neg"
+		}
+		body := wc.MpintBody(n)
+		for j := 1 + r.IntN(3); j > 0; j-- {
+			body = append([]byte{pad}, body...)
+		}
+		out = append(out, byte(len(body)>>24), byte(len(body)>>16), byte(len(body)>>8), byte(len(body)))
+		out = append(out, body...)
+	}
+	return out, name
 }
